@@ -14,4 +14,13 @@ namespace BtcHd.Py
 /-- `hex(n)[2:]` for `n ≥ 0`: lower-case hexadecimal digits, most significant first, `"0"` for 0 -/
 def hexStr (n : Nat) : List Char := Nat.toDigits 16 n
 
+/-- `s.rfind(c)` for a one-character `c`: index of the last occurrence, `-1` when absent -/
+def rfind (s : List Char) (c : Char) : Int :=
+  let r := s.reverse
+  if c ∈ r then ((s.length - 1 - r.idxOf c : Nat) : Int) else -1
+
+/-- `str.lower()` / `str.upper()` restricted to ASCII letters (exact on ASCII strings) -/
+def lowerAscii (c : Char) : Char := if 'A' ≤ c ∧ c ≤ 'Z' then Char.ofNat (c.toNat + 32) else c
+def upperAscii (c : Char) : Char := if 'a' ≤ c ∧ c ≤ 'z' then Char.ofNat (c.toNat - 32) else c
+
 end BtcHd.Py
